@@ -420,11 +420,23 @@ def rule_y8(ctx, funcs: List[Func]) -> None:
             continue
         cfg = CFG(f.node)
 
+        smi = f.params[0] if f.params and f.params[0] not in ("self", "cls") else (f.params[1] if len(f.params) > 1 else None)
+
+        def refuses(cond, pol) -> bool:
+            """the other outcome of the test gives the input SMILES back (the rewrite is refused, nothing is lost)"""
+            for n in own_nodes(f.node):
+                if isinstance(n, ast.If) and any(x is cond for x in ast.walk(n.test)):
+                    other = n.orelse if pol else n.body
+                    return bool(other) and isinstance(other[-1], ast.Return) and isinstance(other[-1].value, ast.Name) and other[-1].value.id == smi
+            return False
+
         def count_guards(c):
             out = []
             nid = cfg.node_of(c)
             for cond, pol in cfg.guards(nid) if nid is not None else []:
                 if any(isinstance(x, ast.Call) and isinstance(x.func, ast.Attribute) and x.func.attr in COUNT_READS for x in ast.walk(cond)):
+                    if refuses(cond, pol):
+                        continue
                     out.append(("" if pol else "not ") + unparse(cond))
             return out
 
@@ -463,6 +475,36 @@ def rule_y9(ctx, funcs: List[Func]) -> None:
             ctx.finding("C20-Y9", "%s.%s:no-hydrogen-bookkeeping" % (f.qualname.split(".")[-2], f.name), f.loc(adds[0]), "%s changes bond orders but never adjusts explicit hydrogen counts: for an atom written in brackets (no implicit hydrogens) the rewritten molecule has a different number of hydrogens than the input" % f.name)
 
 
+def rule_y10(ctx, funcs: List[Func]) -> None:
+    """`SetNumExplicitHs(<positive constant>)` states a belief about the atom (a hydroxyl oxygen that becomes water has
+    exactly one hydrogen and one other neighbour).  The belief must be checked on the same atom before the count is set:
+    for a metal alkoxide oxygen (no hydrogen, bonded to Na/K/Mg) the constant adds a hydrogen and sanitisation still
+    succeeds (the metal bond becomes dative)."""
+    ctx.rule("C20-Y10", "an absolute explicit-hydrogen count is set only after the atom's current hydrogens were tested", 0)
+    STATE = ("GetTotalNumHs", "GetNumExplicitHs", "GetNumImplicitHs")
+    n = 0
+    for f in funcs:
+        cfg = None
+        for c in [x for x in own_nodes(f.node) if isinstance(x, ast.Call) and isinstance(x.func, ast.Attribute) and x.func.attr == "SetNumExplicitHs" and x.args]:
+            a = c.args[0]
+            if not (isinstance(a, ast.Constant) and isinstance(a.value, int) and a.value > 0):
+                continue
+            n += 1
+            cfg = cfg or CFG(f.node)
+            recv = unparse(c.func.value)
+            nid = cfg.node_of(c)
+            tested = False
+            for cond, _pol in cfg.guards(nid) if nid is not None else []:
+                for x in ast.walk(cond):
+                    if isinstance(x, ast.Call) and isinstance(x.func, ast.Attribute) and x.func.attr in STATE and unparse(x.func.value) == recv:
+                        tested = True
+            ctx.instance("C20-Y10", "%s: %s after a test of %s's hydrogens/neighbours: %s" % (f.name, unparse(c), recv, tested), f.loc(c), ok=tested)
+            if not tested:
+                ctx.finding("C20-Y10", "%s.%s:absolute-hydrogen-count" % (f.qualname.split(".")[-2], f.name), f.loc(c), "%s sets the explicit hydrogen count of %s to %d without having tested how many hydrogens / neighbours the atom has: an oxygen that carries no hydrogen (metal alkoxide O[Na]) ends with one hydrogen more than the input" % (f.name, recv, a.value))
+    if n == 0:
+        ctx.note("C20-Y10: no absolute positive hydrogen count is set on this tree")
+
+
 def check(ctx) -> None:
     prog = ctx.prog
     cls = prog.cls(CLS)
@@ -479,6 +521,7 @@ def check(ctx) -> None:
         rule_y7(ctx, funcs)
         rule_y8(ctx, funcs)
         rule_y9(ctx, funcs)
+        rule_y10(ctx, funcs)
     else:
         rule_y1(ctx, funcs)
         rule_y2(ctx, funcs)
@@ -489,3 +532,4 @@ def check(ctx) -> None:
         rule_y7(ctx, funcs)
         rule_y8(ctx, funcs)
         rule_y9(ctx, funcs)
+        rule_y10(ctx, funcs)
